@@ -253,6 +253,24 @@ def execute(case):
     return one_build(case)
 
 
+def replay(case):
+    """a single execution cannot show a difference: build the recorded case and the default
+    case (resp. the first linear extension) of the same format and compare the bytes"""
+    if case.get("kind") == "race":
+        return [bad("C08.footprint-race", f"recorded race: {case}")]
+    a = execute(case)
+    if case.get("kind") == "schedule":
+        targets, pre = graph_for(case["fmt"], case["n"])
+        b = execute(dict(case, order=next(linear_extensions(targets, pre))))
+    else:
+        b = execute({"fmt": case["fmt"], "n": case.get("n", 3)})
+    if not (a and b and "sha" in a[0] and "sha" in b[0]):
+        return a + b
+    if a[0]["sha"] != b[0]["sha"]:
+        return [bad("C08.same-bytes", f"{case} gives {a[0]['sha'][:12]}, the reference execution {b[0]['sha'][:12]}")]
+    return [ok("C08.same-bytes", None)]
+
+
 # ------------------------------------------------------------------------------- run ------
 def run(report, tier, only=None):
     n = 3 if tier == "quick" else 4
